@@ -11,7 +11,7 @@ TECH = "Rocq theorem over an executable model + differential correspondence with
 # id -> (level text, level note)   ; absent => not_applicable with REASON
 CLAIMED = {
  "C01": (
-  "Coq theorems (coq/Properties/C01.v, 36 pinned, axiom-free, coqchk: Axioms <none>) over an executable pointer machine that mirrors add_bytes / remove_bytes / every "
+  "Coq theorems (coq/Properties/C01.v, 39 pinned, axiom-free, coqchk: Axioms <none>) over an executable pointer machine that mirrors add_bytes / remove_bytes / every "
   "resize_notification / every container operation line by line (memory as the whole allocation, pointer trees mirroring every Rust "
   "Ptr type incl. UnsizedList's inner_exclusive / possible_mut_borrow / range). PROVED for EVERY shape of the universe (C01_every_shape) - structs, lists of any "
   "element type / prefix width, trailing RemainingBytes, lists and maps of unsized elements, generated enums, nested to any depth - every well-formed value, "
@@ -28,10 +28,10 @@ CLAIMED = {
   "All of it is folded into ONE history theorem, C01_full_run_refines (any interleaving of all these operations, with the keyed "
   "operations' observations), and C01_keyed_views_stay_sorted. Generated enums: paths descend into the live variant (step SV), whole enum values are replaced by set_from_owned, and the generated setter set_<variant>(DefaultInit) refines assigning the variant's default value (C01_enum_switch_refines); C01_run_refines_with_switches is the history theorem with switches, C01_dispatcher_tie_switch its tie to the runner's dispatcher. "
   "C01_dispatcher_tie / _all_ops prove that the dispatcher the extracted runner executes returns what descent + operation return. The "
-  "flat-shape theorems of the first round remain as the special case. NON-DEFAULT initializers (the all-ones arrays, [1;1;1] for RemainingBytes) through UnsizedList::insert, set_from_init and UnsizedMap::insert on a new or an existing key are operations of the history theorem C01_run_refines_with_initializers (C01_initializer_writes_its_value, C01_dispatcher_refines_initializers). UnsizedString is tied by correspondence only; everything is ALSO tied by correspondence: 1.5k (quick) / 12k (thorough) generated histories on 25 Rust shapes (four with generated enums: variant switches, operations inside the live variant) nested to "
+  "flat-shape theorems of the first round remain as the special case. NON-DEFAULT initializers (the all-ones arrays, [1;1;1] for RemainingBytes) through UnsizedList::insert, set_from_init and UnsizedMap::insert on a new or an existing key are operations of the history theorem C01_run_refines_with_initializers (C01_initializer_writes_its_value, C01_dispatcher_refines_initializers). UnsizedString::set (clear + push_all; a string that does not fit leaves the string cleared) is an operation of the final history theorem C01_run_refines_every_operation, which C01_dispatcher_run_refines carries to whole op-code histories through the runner's dispatcher; everything is ALSO tied by correspondence: 1.5k (quick) / 12k (thorough) generated histories on 25 Rust shapes (four with generated enums: variant switches, operations inside the live variant) nested to "
   "depth 3 run through the real ExclusiveWrapper API and the extracted machine (0 disagreements), judged against an independent "
   "plain-Vec/BTreeMap oracle in Python.",
-  "PARTIAL (stated in Properties/C01.v): UnsizedString is in the machine (as a view of a byte list) and the correspondence but has no theorem of its own; "
+  "PARTIAL (stated in Properties/C01.v): UTF-8 validity of strings is the Rust type system's (set takes &str) and the correspondence's, the model stores bytes; "
   "the FAILING-initializer path is where the property is false of code and model alike (D16, machine-checked as C06_failing_initializer_refuted). Found and fixed D7 (stale inner pointer not "
   "shifted), D18 (empty trailing RemainingBytes at full capacity: found while proving the flat pointer assertions) and D26 (a STALE "
   "recorded inner pointer took part in check_pointers and could be shifted out of the allocation: found while stating the general "
